@@ -64,7 +64,23 @@ func neighbours3(m *model3d.Mesh) map[model3d.Coord3D][]model3d.Coord3D {
 
 // blurRef applies the published rule: v + rate*(mean(neighbours) - v); rate -1: mean of v and its neighbours.
 func blurRef(m *model3d.Mesh, rates []float64) (map[model3d.Coord3D]model3d.Coord3D, bool) {
+	return blurRefFiltered(m, rates, nil)
+}
+
+// blurRefFiltered: only neighbours accepted by f (on the initial coordinates) count; a vertex without any stays.
+func blurRefFiltered(m *model3d.Mesh, rates []float64, f func(a, b model3d.Coord3D) bool) (map[model3d.Coord3D]model3d.Coord3D, bool) {
 	nb := neighbours3(m)
+	if f != nil {
+		for v, ns := range nb {
+			var keep []model3d.Coord3D
+			for _, w := range ns {
+				if f(v, w) {
+					keep = append(keep, w)
+				}
+			}
+			nb[v] = keep
+		}
+	}
 	cur := map[model3d.Coord3D]model3d.Coord3D{}
 	for v := range nb {
 		cur[v] = v
@@ -75,6 +91,10 @@ func blurRef(m *model3d.Mesh, rates []float64) (map[model3d.Coord3D]model3d.Coor
 			var sum model3d.Coord3D
 			for _, w := range ns {
 				sum = sum.Add(cur[w])
+			}
+			if len(ns) == 0 {
+				next[v] = cur[v]
+				continue
 			}
 			if rate == -1 {
 				next[v] = sum.Add(cur[v]).Scale(1 / float64(len(ns)+1))
@@ -282,6 +302,27 @@ func ops3() []meshOp3 {
 			}
 			return out, ""
 		}})
+	}
+	// neighbours restricted by a filter on the initial coordinates: same side of a plane (some vertices keep all,
+	// some lose a few, on small meshes some lose all and must stay), and an asymmetric one (only towards larger z)
+	for fi, flt := range []func(a, b model3d.Coord3D) bool{
+		func(a, b model3d.Coord3D) bool { return (a.X < 0.25) == (b.X < 0.25) },
+		func(a, b model3d.Coord3D) bool { return b.Z > a.Z },
+	} {
+		for _, rates := range [][]float64{{0.5}, {1, -1}} {
+			flt, rates := flt, rates
+			add(meshOp3{name: fmt.Sprintf("BlurFiltered(filter%d)%v", fi, rates), faces: func(f int) int { return f }, apply: func(in *model3d.Mesh) (*model3d.Mesh, string) {
+				out := in.BlurFiltered(flt, rates...)
+				ref, ok := blurRefFiltered(in, rates, flt)
+				if !ok {
+					return nil, ""
+				}
+				if !sameTris(mappedMesh(in, ref), out, 1e-9) {
+					return out, fmt.Sprintf("rule: BlurFiltered%v does not move every vertex towards the mean of its accepted neighbours (and leave it alone without any)", rates)
+				}
+				return out, ""
+			}})
+		}
 	}
 	add(meshOp3{name: "SmoothAreas(0.05,5)", faces: func(f int) int { return f }, apply: func(in *model3d.Mesh) (*model3d.Mesh, string) { return in.SmoothAreas(0.05, 5), "" }})
 	add(meshOp3{name: "MeshSmoother(hard constraint x<0.5)", faces: func(f int) int { return f }, apply: func(in *model3d.Mesh) (*model3d.Mesh, string) {
